@@ -736,8 +736,8 @@ def open_witness(ctx, w):
 
 def fixture_plan(ctx):
     """(format, number of data sets, histories per data set)."""
-    nf = ctx.scale(5, 14)
-    nh = ctx.scale(24, 60)
+    nf = ctx.scale(5, 30)
+    nh = ctx.scale(24, 80)
     return [(fmt, nf, nh) for fmt in FMTS]
 
 
